@@ -114,6 +114,7 @@ class Contract:
     may_raise: Tuple[str, ...] = ()  # exceptions the callee may raise non-deterministically (assumed contracts)
     allow_raises: bool = False  # if False, any raising path of a verified target must satisfy ensures too
     concretize: Optional[Callable] = None  # (model, params, S) -> plain-data case for native replay
+    local_types: Dict[str, Ty] = field(default_factory=dict)  # declared types of locals that start as untyped empties (set(), dict(), OrderedDict())
     fresh_result: bool = False  # the returned object is newly allocated (proved as an obligation, used for distinctness at call sites)
     init_fields: Optional[Callable] = None  # __init__ contracts: (ctx) -> {field: initial value}; used for parallel allocation
 
